@@ -47,7 +47,9 @@ Definition etype_idx (t : etype) : N :=
 Inductive clk := CA | CB.
 Definition clk_eqb (a b : clk) : bool := match a, b with CA, CA | CB, CB => true | _, _ => false end.
 
-Inductive sig := SRA | SRA2 | SRB | SC.
+(* SPA: output of pin PA (the first signal the simulator allocates: state offset 0); SZ: a zero-width input (all
+   zero-width outputs are allocated at state offset 0 as well); SCLO / SCHI: the slices C[3:0] and C[7:4] *)
+Inductive sig := SRA | SRA2 | SRB | SC | SPA | SZ | SCLO | SCHI.
 Inductive pinid := PA | PB.
 
 Definition val := option N.
@@ -189,7 +191,14 @@ Definition circ_advance (two : bool) (k : clk) (c : circ) : circ :=
   end.
 
 Definition circ_read (s : sig) (c : circ) : val :=
-  match s with SRA => r_a c | SRA2 => r_a2 c | SRB => r_b c | SC => c_out c end.
+  match s with
+  | SRA => r_a c | SRA2 => r_a2 c | SRB => r_b c | SC => c_out c
+  | SPA => lat_ra c      (* the evaluated output of pin PA: the value RA's data input latched, both are copies of the
+                            pin's internal state made by the same reevaluate() *)
+  | SZ => Some 0%N       (* zero bits: always defined, never changes *)
+  | SCLO => option_map (fun v => N.land v 15) (c_out c)
+  | SCHI => option_map (fun v => N.shiftr v 4) (c_out c)
+  end.
 
 (* ------------------------------------------------------------------------- *)
 (** * Log *)
